@@ -207,7 +207,7 @@ def _reduction(acc, job, si, y, groups, ctrl, deadline):
     from fairlearn.reductions._exponentiated_gradient._lagrangian import _Lagrangian
 
     n, name, where = len(y), job["moment"], job["kind"]
-    ex = {"y": y, "groups": groups, "ctrl": ctrl}
+    ex = {"y": y, "groups": groups, "ctrl": ctrl, "cw": [0.5, 0.125, 0.875][si % 3]}
     LAM_ORDER[0] = "index"
     kw = {"sensitive_features": [mc.GROUP_NAMES[g] for g in groups]}
     if ctrl is not None:
@@ -230,7 +230,8 @@ def _reduction(acc, job, si, y, groups, ctrl, deadline):
             if len(probe.index) == 0:
                 return None
             lam = pd.Series([real(f"l{j}", 0) for j in range(len(probe.index))], index=probe.index, dtype=object)
-            gs = red.GridSearch(Recorder(), constraints=cons, grid=pd.DataFrame({0: lam}))
+            # the selection trade-off (constraint_weight) has no say in HOW each grid point is trained: non-default values in two of three structures
+            gs = red.GridSearch(Recorder(), constraints=cons, grid=pd.DataFrame({0: lam}), constraint_weight=ex["cw"])
             gs.fit(X, list(y), **kw)
         if not RECORDS:
             return "no-fit"
@@ -498,7 +499,7 @@ def replay(cex):
             lag = _Lagrangian(X=X, y=list(y), estimator=Recorder(), constraints=cons, B=10, **kw)
             lag._call_oracle(lam)
         else:
-            red.GridSearch(Recorder(), constraints=cons, grid=pd.DataFrame({0: lam})).fit(X, list(y), **kw)
+            red.GridSearch(Recorder(), constraints=cons, grid=pd.DataFrame({0: lam}), constraint_weight=ex.get("cw", 0.5)).fit(X, list(y), **kw)
     except Exception as e:
         return {"reproduced": True, "signature": f"{job['kind']}:{name}:exception", "detail": f"raised {type(e).__name__}: {e}"}
     if not RECORDS:
